@@ -261,3 +261,15 @@ Example C09_late_transaction_refuted :
   end = Some (Idle, Idle, WClosed, None).
 Proof. exact late_transaction_refuted. Qed.
 Print Assumptions C09_late_transaction_refuted.
+
+(*    The compaction goroutines in read-only mode (repair "a DB in the persistent-error state starts no flush and no
+      table compaction"; the branch is part of the model every theorem above is about): a range command that
+      reaches tCompaction after SetReadOnly is not executed -- tCompaction acknowledges it with the error and
+      returns, CompactRange returns, and a later Close returns with one compaction goroutine already gone. *)
+Example C09_read_only_parks_compaction :
+  summary_bg (run fixed init (firstn 14 trace_ro_parks)) = Some (WHeld PCE, E_per, M0, T3 XRange, Idle, TrigW BT SCrT) /\
+  summary_bg (run fixed init (firstn 15 trace_ro_parks)) = Some (WHeld PCE, E_per, M0, TX, Idle, TrigW BT SCrT) /\
+  summary_bg (run fixed init (firstn 17 trace_ro_parks)) = Some (WHeld PCE, E_per, M0, TDone, Idle, Idle) /\
+  summary_bg (run fixed init trace_ro_parks) = Some (WClosed, E_done, MDone, TDone, Idle, Idle).
+Proof. exact read_only_parks_compaction. Qed.
+Print Assumptions C09_read_only_parks_compaction.
